@@ -111,7 +111,7 @@ fn base_stream(rng: &mut Rng, enc: Enc, prost: bool, max: usize) -> (Vec<u8>, Ve
     let mut wire = Vec::new();
     let mut starts = Vec::new();
     for i in 0..n {
-        let size = *rng.pick(&[0usize, 1, 2, 5, 6, 20, 64, 300]);
+        let size = if small() { *rng.pick(&[0usize, 1, 2, 5, 6, 20]) } else { *rng.pick(&[0usize, 1, 2, 5, 6, 20, 64, 300]) };
         let payload = if prost {
             let data = rng.payload(size);
             ref_pb_encode(&data, i as u64, if rng.bool() { "t" } else { "" })
@@ -248,7 +248,7 @@ fn mutate(rng: &mut Rng, m: &str, wire: &mut Vec<u8>, starts: &[usize], enc: Enc
 }
 
 fn case(rng: &mut Rng, ctx: &mut Ctx, forced: Option<(&str, Vec<u8>)>) {
-    let enc = *rng.pick(Enc::all());
+    let enc = forced_enc().unwrap_or(*rng.pick(Enc::all()));
     let prost = rng.chance(1, 3);
     let request = rng.bool();
     let http = if request || rng.chance(3, 4) { 200 } else { *rng.pick(&[400u16, 404, 429, 500, 503]) };
